@@ -262,6 +262,8 @@ class Sim:
             if kind == "gen_throw":
                 from .env import ProgErr
 
+                if op.get("exc") == "stop":
+                    return it.throw(StopIteration(env._fresh()))
                 return it.throw(ProgErr("thrown", env._fresh()))
             if kind == "gen_close":
                 return it.close()
